@@ -133,11 +133,7 @@ theorem learnPhrase_bounded (ctx : LearnCtx) (u : UserMap) (key : List Nat) (x :
         have hne' : (allEntries ctx.sys u key).isEmpty = false := by
           rw [← lookupAll_isEmpty]; simpa using hne
         rw [lookupAll_phraseFreq, lookupAll_maxFreq ctx u key [] hne',
-          estimate_editor _ _ _ (Nat.le_max_left _ _) (by
-            have := mergedFreq_le ctx.sys u key [] hB
-            have := othersMax_le ctx.sys u key [] hB
-            have := u32_headroom
-            omega)]
+          estimate_editor _ _ _ (Nat.le_max_left _ _)]
         exact ⟨u, rfl, hB, MonoStep.refl u⟩
     · cases he : (allEntries ctx.sys u key).isEmpty with
       | true =>
@@ -149,7 +145,7 @@ theorem learnPhrase_bounded (ctx : LearnCtx) (u : UserMap) (key : List Nat) (x :
       | false =>
         have hf := mergedFreq_le ctx.sys u key x hB
         have hy := othersMax_le ctx.sys u key x hB
-        rw [learnPhrase_update ctx u key x hlen hx he (by have := u32_headroom; omega)]
+        rw [learnPhrase_update ctx u key x hlen hx he]
         refine ⟨_, rfl, freqBounded_insert _ _ _ _ hB (stepFreq_le_max _ _), monoStep_insert _ _ _ ?_⟩
         intro v0 h0
         exact Nat.le_trans (get?_le_mergedFreq ctx.sys u key x v0 h0) (learnStep_ge _ _ hf)
@@ -167,6 +163,38 @@ theorem learnAll_bounded (ctx : LearnCtx) (us : List (List Nat × Text)) :
     obtain ⟨u1, e1, b1, m1⟩ := learnPhrase_bounded ctx u k t hB
     obtain ⟨u2, e2, b2, m2⟩ := ih u1 b1
     refine ⟨u2, ?_, b2, m1.trans m2⟩
+    simp only [learnAll, e1, Outcome.bind]
+    exact e2
+
+/-! ### No panic at all, whatever the stored frequencies (repair of F40) -/
+
+/-- `learn_phrase` never panics — no bound on the stored frequencies: on the editor path `orig_freq` is the
+    phrase's own frequency, which is at most the maximum over its homophones, and the addition saturates -/
+theorem learnPhrase_total (ctx : LearnCtx) (u : UserMap) (key : List Nat) (x : Text) :
+    ∃ u', learnPhrase ctx u key x = .ok u' := by
+  by_cases hlen : key.length = x.length
+  · unfold learnPhrase
+    rw [if_neg (fun h => h hlen)]
+    simp only
+    split
+    · exact ⟨_, rfl⟩
+    · rename_i hne
+      have hne' : (allEntries ctx.sys u key).isEmpty = false := by
+        rw [← lookupAll_isEmpty]; simpa using hne
+      rw [lookupAll_phraseFreq, lookupAll_maxFreq ctx u key x hne', estimate_editor _ _ _ (Nat.le_max_left _ _)]
+      exact ⟨_, rfl⟩
+  · exact ⟨u, by unfold learnPhrase; rw [if_pos hlen]⟩
+
+theorem learnAll_total (ctx : LearnCtx) (us : List (List Nat × Text)) :
+    ∀ (u : UserMap), ∃ u', learnAll ctx us u = .ok u' := by
+  induction us with
+  | nil => intro u; exact ⟨u, rfl⟩
+  | cons p rest ih =>
+    intro u
+    obtain ⟨k, t⟩ := p
+    obtain ⟨u1, e1⟩ := learnPhrase_total ctx u k t
+    obtain ⟨u2, e2⟩ := ih u1
+    refine ⟨u2, ?_⟩
     simp only [learnAll, e1, Outcome.bind]
     exact e2
 
